@@ -158,7 +158,47 @@ pub fn render_record(e: &Element<String>, o: &Options) -> Value {
     }
 }
 
+/// attribute prefixes that make prefix + local name equal to the identifier of some attribute of this tree
+/// (e.g. `ns_` for `ns:id`, `car_` for `type` under <car>): the boundary of the rename decision
+pub fn derived_prefixes(e: &Element<String>) -> Vec<String> {
+    let mut out: Vec<String> = Vec::new();
+    let text = match std::panic::catch_unwind(std::panic::AssertUnwindSafe(|| e.to_serde_struct(&Options::quick_xml_de()))) {
+        Ok(t) => t,
+        Err(_) => return out,
+    };
+    let mut pending: Option<String> = None;
+    for line in text.lines() {
+        if let Some(r) = line.strip_prefix("    #[serde(rename = \"@").and_then(|x| x.strip_suffix("\")]")) {
+            pending = Some(r.to_string());
+        } else if let Some(body) = line.strip_prefix("    pub ") {
+            if let (Some(local), Some((ident, _))) = (pending.take(), body.split_once(": ")) {
+                if ident.ends_with(&local) && ident.len() > local.len() {
+                    let p = ident[..ident.len() - local.len()].to_string();
+                    if !out.contains(&p) {
+                        out.push(p);
+                    }
+                }
+            }
+        } else {
+            pending = None;
+        }
+    }
+    out
+}
+
 /// option tuples a tree is rendered under; `extra` adds derive / prefix / text identifier variations
+pub fn option_tuples_for(r: &mut Rng, extra: usize, e: &Element<String>) -> Vec<Options> {
+    let mut v = option_tuples(r, extra);
+    if extra > 0 {
+        for p in derived_prefixes(e).into_iter().take(2) {
+            let mut o = Options::quick_xml_de();
+            o.attribute_prefix = p;
+            v.push(o);
+        }
+    }
+    v
+}
+
 pub fn option_tuples(r: &mut Rng, extra: usize) -> Vec<Options> {
     let mut v = Vec::new();
     for sort in [false, true] {
@@ -171,8 +211,9 @@ pub fn option_tuples(r: &mut Rng, extra: usize) -> Vec<Options> {
         v.push(q);
         v.push(s);
     }
-    const DERIVES: &[&str] = &["", "Debug", "Serialize, Deserialize, Debug, Clone, PartialEq", "serde::Deserialize", "D(x)"];
-    const PREFIXES: &[&str] = &["", "@", "a", "attr_", "@@", "$"];
+    const DERIVES: &[&str] = &["", "Debug", "Serialize, Deserialize, Debug, Clone, PartialEq", "serde::Deserialize", "D(x)", "Debug,",
+                               " Debug ", "Debug, Debug", "Serialize,Deserialize", "Deserialize", "a b", ")]"];
+    const PREFIXES: &[&str] = &["", "@", "a", "attr_", "@@", "$", "i", "p", "x", "n:", "xmlns:", "_"];
     const TEXTIDS: &[&str] = &["$text", "$value", "t", "text", "#text", "body"];
     for _ in 0..extra {
         let d: &str = DERIVES[r.below(DERIVES.len())];
